@@ -89,7 +89,7 @@ def closed_forms(ctx, n):
     ctx.claim('displacement_exact_const_acc', S.sym_and(*[ctx.eq(d0[i], c0 * t[i] * t[i] / 2, sc) for i in range(n)]))
 
 
-def _is_maxabs(p, series):
+def _unused_is_maxabs(p, series):
     ab = [S.sym_abs(x) for x in series]
     return S.sym_and(S.sym_and(*[p >= x for x in ab]), S.sym_or(*[p == x for x in ab]))
 
@@ -100,10 +100,10 @@ def calc_peak_free(ctx, n, alpha=-2.5):
     im = ctx.lib.im
     p = im.calc_peak(x)
     ctx.observe('peak', p)
-    ctx.claim('peak_is_max_abs', _is_maxabs(p, list(x)))
+    ctx.claim('peak_is_max_abs', ctx.is_maxabs(p, list(x)))
     ctx.claim('deprecated_alias_same', ctx.eq(im.calculate_peak(x), p))
-    ctx.claim('sign_reversal_invariant', _is_maxabs(im.calc_peak(-x), list(x)))
-    ctx.claim('scales_with_abs_alpha', _is_maxabs(im.calc_peak(alpha * x), [abs(alpha) * e for e in x]))
+    ctx.claim('sign_reversal_invariant', ctx.is_maxabs(im.calc_peak(-x), list(x)))
+    ctx.claim('scales_with_abs_alpha', ctx.is_maxabs(im.calc_peak(alpha * x), [abs(alpha) * e for e in x]))
 
 
 def object_peaks(ctx, n, dt=0.01):
